@@ -15,6 +15,16 @@ Require Import DS.Model.Value DS.Gen.GenPrune DS.Model.Prune DS.Gen.GenSchema DS
 Import ListNotations.
 Open Scope Z_scope.
 
+(* What ELSE the caller's DataFile says about the file -- claims, stored in the manifest entry unless the code verifies them:
+     pc_stat_keys  the keys of the column_sizes / value_counts / null_value_counts maps as the caller wrote them: Some z -- a key
+                   k with int(str(k)) = z; None -- a key whose str() does not read back as an int ("abc", 1.5, None, True):
+                   manifests write str(k) and read int(k), so ONE such key stored makes every later read of the table raise
+     pc_sum        DataFile.checksum: None -- not supplied; Some b -- supplied, and b says whether it IS the SHA-256 of the file
+                   (reads verify every data file against its stored checksum)
+     pc_count      DataFile.record_count as supplied (row_count() sums the stored counts) *)
+Record pclaims := { pc_stat_keys : list (option Z); pc_sum : option bool; pc_count : Z }.
+Definition no_claims : pclaims := {| pc_stat_keys := []; pc_sum := None; pc_count := 0 |}.
+
 (* a pre-built data file handed to append_files *)
 Record pfile := {
   pf_id : Z;                          (* its name *)
@@ -24,7 +34,8 @@ Record pfile := {
   pf_footer : option aschema;         (* its parquet footer schema; None: no readable footer *)
   pf_rows : list srow;
   pf_lo : option (list (Z * value));  (* DataFile.lower_bounds / upper_bounds as the CALLER supplied them *)
-  pf_hi : option (list (Z * value))   (* (None: not supplied) -- a claim about the file, not a fact *)
+  pf_hi : option (list (Z * value));  (* (None: not supplied) -- a claim about the file, not a fact *)
+  pf_claims : pclaims                 (* the other caller-supplied fields a manifest stores *)
 }.
 
 (* A condition that lasts exactly as long as one call (cleared before the transaction ends) -- a window of failing
@@ -85,6 +96,33 @@ Definition verified_bounds (ts : option ischema) (p : pfile) : list (Z * value) 
   | None, None => ([], [])
   | _, _ => match ts with Some s => bounds_for (sfields s) (footer_of p) (pf_rows p) | None => ([], []) end
   end.
+(* Transaction._with_verified_bounds, the other claims (pinned by translator/gen_schema.py check_more_pins).  What the manifest
+   entry of an adopted file stores: the statistics maps are RECOMPUTED from the parquet footer under the table schema's field ids
+   when the caller supplied any (dropped on a table without a schema) -- the caller's keys are never stored --; a supplied
+   checksum is compared with the file's and the file REFUSED when it differs (claims_verifiable, part of check_files), so a
+   stored checksum is the file's; the record count is the footer's, i.e. the number of rows.
+   sc_stat_keys: the stored keys, as pc_stat_keys; sc_sum_ok: a checksum is stored and it is / is not the file's (None: none
+   stored); sc_count: the stored record_count. *)
+Record sclaims := { sc_stat_keys : list (option Z); sc_sum_ok : option bool; sc_count : Z }.
+Definition claims_verifiable (p : pfile) : bool :=
+  match pc_sum (pf_claims p) with Some false => false | _ => true end.
+Definition stored_claims (ts : option ischema) (p : pfile) : sclaims :=
+  {| sc_stat_keys := match pc_stat_keys (pf_claims p), ts with
+                     | _ :: _, Some s => map (fun f => Some (fid f)) (sfields s)
+                     | _, _ => []
+                     end;
+     sc_sum_ok := pc_sum (pf_claims p);
+     sc_count := Z.of_nat (length (pf_rows p)) |}.
+(* the UNREPAIRED behaviour (what the audit reproduced): every claim stored as given *)
+Definition stored_claims_as_given (p : pfile) : sclaims :=
+  {| sc_stat_keys := pc_stat_keys (pf_claims p); sc_sum_ok := pc_sum (pf_claims p); sc_count := pc_count (pf_claims p) |}.
+(* a manifest entry every read can decode (every key reads back as an int), whose checksum -- if any -- the file passes, and
+   whose count is the file's number of rows *)
+Definition claims_sound (c : sclaims) (p : pfile) : bool :=
+  forallb (fun k => match k with Some _ => true | None => false end) (sc_stat_keys c)
+  && match sc_sum_ok c with Some false => false | _ => true end
+  && (sc_count c =? Z.of_nat (length (pf_rows p))).
+
 Definition to_dfile (ts : option ischema) (p : pfile) : dfile :=
   {| df_id := pf_id p; df_arrow := footer_of p; df_rows := pf_rows p;
      df_lo := fst (verified_bounds ts p); df_hi := snd (verified_bounds ts p) |}.
@@ -141,22 +179,31 @@ Definition protect_left (ft : option fault) (m : list Z) (fs : list pfile) : lis
 (* append_files' loop: every file, in order, must have a canonical path, exist, be parquet, and -- on a
    table with a persisted schema -- carry exactly the Arrow schema the handle derives for the table schema
    (create_arrow_schema, through the cache).  true only when EVERY file passed. *)
-Fixpoint check_files (ts : option ischema) (c : cache) (fs : list pfile) : cache * bool :=
+Fixpoint check_layouts (ts : option ischema) (c : cache) (fs : list pfile) : cache * bool :=
   match fs with
   | [] => (c, true)
   | p :: r =>
     if pf_canonical p && pf_exists p && pf_parquet p then
       match ts with
-      | None => check_files ts c r
+      | None => check_layouts ts c r
       | Some s =>
         let (a, c') := create_arrow_schema c s in
         match pf_footer p with
-        | Some ft => if aschema_eqb ft a then check_files ts c' r else (c', false)
+        | Some ft => if aschema_eqb ft a then check_layouts ts c' r else (c', false)
         | None => (c', false)
         end
       end
     else (c, false)
   end.
+
+(* ... and then (the list comprehension over _with_verified_bounds, after the loop) every file's verifiable claims must hold:
+   a file whose supplied checksum is not its own is refused.  Nothing is queued unless both passes succeed. *)
+Definition check_files (ts : option ischema) (c : cache) (fs : list pfile) : cache * bool :=
+  let (c', ok) := check_layouts ts c fs in (c', ok && forallb claims_verifiable fs).
+
+(* the names of the pre-built files a call / a history hands to append_files *)
+Definition call_ids (c : call) : list Z := match c with CFiles fs | CFilesF _ fs => map pf_id fs | _ => [] end.
+Definition adopted_ids (txs : list txn) : list Z := flat_map (fun t => flat_map call_ids (t_calls t)) txs.
 
 Section TxMachine.
   Variable conv : catype -> pyval -> option pyval.
@@ -193,7 +240,8 @@ Section TxMachine.
           let f := {| df_id := w_next w; df_arrow := a; df_rows := rows; df_lo := lo; df_hi := hi |} in
           let w2 := with_store w1 (w_next w :: w_store w1) (w_next w + 1) in
           let p := {| pf_id := w_next w; pf_canonical := true; pf_exists := true; pf_parquet := true; pf_footer := Some a;
-                      pf_rows := rows; pf_lo := Some lo; pf_hi := Some hi |} in
+                      pf_rows := rows; pf_lo := Some lo; pf_hi := Some hi;
+                      pf_claims := {| pc_stat_keys := []; pc_sum := Some true; pc_count := Z.of_nat (length rows) |} |} in
           match s2 with
           | None =>                                   (* the file stays written, unqueued *)
             (w2, None, [w_next w], if queue_failure_propagates then tag_storage_fault else 0)
